@@ -78,7 +78,7 @@ impl OperatorsBinder {
                 let entry = log.get(i).unwrap();
                 let tup: SVec<Val> = SVec::try_from_val(&env, &entry).unwrap_or(SVec::new(&env));
                 let f = tup.get(0).and_then(|v| sym_name(&env, &v)).unwrap_or("?".into());
-                let arg = if f == "echo" { tup.get(2).map(|v| self.arg_name(&v)).unwrap_or("mismatch".into()) } else { "none".into() };
+                let arg = if f == "echo" { tup.get(2).map(|v| self.arg_name(&v)).unwrap_or("mismatch".into()) } else if f == "ping" { "unit".into() } else { "none".into() };
                 out.push(json!({"k": "probe_call", "target": name, "fn": f, "arg": arg}));
             }
             self.log_seen.insert(name, log.len());
@@ -107,6 +107,8 @@ impl OperatorsBinder {
                 let f = act["fn"].as_str().unwrap();
                 let inner: SVec<Val> = if f == "echo" {
                     svec![&env, 1u32.into_val(&env), self.arg_val(act["arg"].as_str().unwrap())]
+                } else if f == "ping" {
+                    SVec::new(&env)
                 } else {
                     svec![&env, 1u32.into_val(&env)]
                 };
